@@ -4,6 +4,7 @@
 import BioCantor.Driver.Proto
 import BioCantor.Driver.SpecDigest
 import BioCantor.Model.DigestDict
+import BioCantor.Model.DigestSchema
 namespace BioCantor.Driver.Dig
 open BioCantor BioCantor.Proto BioCantor.Spec.Digest BioCantor.Model.Digest BioCantor.Driver.SpecDig
 open BioCantor.Spec.Qual (Str)
@@ -129,6 +130,49 @@ def classOp (rt : Bool) : Op := do
           o.completelyWithin (o.genes.map (·.guid) ++ o.fcs.map (·.guid) ++ o.vcs.map (·.guid))))))
   | c => throw s!"class? {c}"
 
+/-- GUID and token stream of the top-level digest call of `Cls.from_dict(d)` (no parent) -/
+def digestOf (cls : String) (d : PyVal) : Except String (D String) :=
+  let md5 := md5Hex
+  match cls with
+  | "tx" => .ok ((txFromDict md5 d).map fun o => showTokens o.guid (txDigestArgs md5 o.args))
+  | "cds" => .ok ((cdsFromDict md5 d).map fun o => showTokens o.guid (cdsDigestArgs o.args))
+  | "feat" => .ok ((featFromDict md5 d).map fun o => showTokens o.guid (featDigestArgs o.args))
+  | "var" => .ok ((varFromDict md5 d).map fun o => showTokens o.guid (varDigestArgs o.args))
+  | "gene" => .ok ((geneFromDict md5 Frame.none d).map fun o =>
+      match geneObjDigestArgs o.transcripts o.geneId o.geneSymbol o.geneType o.locusTag o.sequenceName o.quals Frame.none with
+      | some a => showTokens o.guid a
+      | none => "?")
+  | "fc" => .ok ((fcFromDict md5 Frame.none d).map fun o =>
+      match fcObjDigestArgs o.features o.name o.id o.ctype o.locusTag o.sequenceName o.quals Frame.none with
+      | some a => showTokens o.guid a
+      | none => "?")
+  | "vc" => .ok ((vcFromDict md5 Frame.none d).map fun o =>
+      match vcObjDigestArgs o.variants o.name o.id o.sequenceName o.quals Frame.none with
+      | some a => showTokens o.guid a
+      | none => "?")
+  | "ac" => .ok ((acFromDict md5 d .none).map fun o =>
+      showTokens o.guid (acDigestArgs o.bounds o.parent.frame o.name o.sequenceName o.quals
+        o.completelyWithin (o.genes.map (·.guid) ++ o.fcs.map (·.guid) ++ o.vcs.map (·.guid))))
+  | c => .error s!"class? {c}"
+
+def mclsOf : String → Option MCls
+  | "tx" => some .tx | "feat" => some .feat | "var" => some .var | "gene" => some .gene | "fc" => some .fc
+  | "vc" => some .vc | "ac" => some .ac | "parent" => some .parent
+  | _ => none
+
+/-- `Cls.from_dict(d).to_dict()` as a value (ac: with the parent exported) -/
+def reexport (cls : String) (d : PyVal) : Except String (D PyVal) :=
+  let md5 := md5Hex
+  match cls with
+  | "tx" => .ok ((txFromDict md5 d).map txToDict)
+  | "feat" => .ok ((featFromDict md5 d).map featToDict)
+  | "var" => .ok ((varFromDict md5 d).map varToDict)
+  | "gene" => .ok ((geneFromDict md5 Frame.none d).map geneToDict)
+  | "fc" => .ok ((fcFromDict md5 Frame.none d).map fcToDict)
+  | "vc" => .ok ((vcFromDict md5 Frame.none d).map vcToDict)
+  | "ac" => .ok ((acFromDict md5 d .none).bind fun o => acToDict o true)
+  | c => .error s!"class? {c}"
+
 def showQualOut : Option (List (Str × List Str)) → String
   | none => "None"
   | some d => " ".intercalate (toString d.length :: d.map fun e => encodeStr e.1 ++ " " ++ showStrs e.2)
@@ -151,6 +195,33 @@ def ops : List (String × Op) := [
       let same := concatTokens (encodeObjectForDigest (varDigestArgs v) []) ==
                   concatTokens (encodeObjectForDigest (varDigestArgs w) [])
       pure (if same then "ok same" else "ok differ")),
+  ("digest2", do
+      let _ ← tok; let cls ← tok; let d1 ← pVal; pBar; let d2 ← pVal
+      match digestOf cls d1, digestOf cls d2 with
+      | .ok (.ok a), .ok (.ok b) => pure s!"ok {a} | {b}"
+      | .ok (.error _), .ok _ => pure (showD id (digestOf cls d1 |>.toOption.getD (.error .typeError)))
+      | .ok _, .ok (.error _) => pure (showD id (digestOf cls d2 |>.toOption.getD (.error .typeError)))
+      | .error e, _ => throw e
+      | _, .error e => throw e),
+  -- `XModel.Schema().load(...)`: of the re-exported dictionary (`rt`) / of the dictionary itself (`raw`)
+  ("schema", do
+      let cls ← tok; let mode ← tok; let d ← pVal
+      match mclsOf cls with
+      | none => throw s!"class? {cls}"
+      | some c =>
+        let verdict (v : PyVal) : String := if accepts c v then "accept" else "reject"
+        if mode == "raw" then pure ("ok " ++ verdict d)
+        else match reexport cls d with
+          | .ok r => pure (showD verdict r)
+          | .error e => throw e),
+  ("schemafields", do
+      let cls ← tok
+      match mclsOf cls with
+      | none => throw s!"class? {cls}"
+      | some c =>
+        let fs := fieldFacts c
+        pure ("ok " ++ " ".intercalate (toString fs.length :: fs.map fun f =>
+          s!"{encodeStr f.1} {if f.2.1 then "T" else "F"} {if f.2.2 then "T" else "F"}"))),
   ("dictrt", classOp true),
   ("digest", classOp false)
 ]
